@@ -89,7 +89,11 @@ Section Enter.
       + rewrite en_sc_old by (eapply stack_ok_in; eassumption). apply Iunodup. exact Hs.
     - intros s v1 v2 [<-|Hs].
       + rewrite en_sc_new. cbn. tauto.
-      + rewrite en_sc_old by (eapply stack_ok_in; eassumption). apply Ipuniq. exact Hs.
+      + assert (Hsn : (s < nscopes st)%nat) by (eapply stack_ok_in; eassumption).
+        rewrite en_sc_old by exact Hsn. intros H1 H2. 
+        assert (Ea : forall v, In v (sundeclared (sc_of st s)) -> argp st' home v = argp st home v).
+        { intros v Hv. unfold argp. rewrite en_sc_old; [reflexivity|]. apply Ihomes. apply (Ivalid s v Hsn). right. exact Hv. }
+        rewrite (Ea v1 H1), (Ea v2 H2). apply (Ipuniq s); assumption.
     - intros r Hr Hroot Hd. destruct (Ipcomp r Hr Hroot Hd) as [[H1 H2]|[]]. left.
       split; [right; exact H1|]. rewrite en_sc_old by (apply Ihomes; exact Hr). exact H2.
     - intros s [<-|Hs].
@@ -106,11 +110,20 @@ Section Enter.
       apply filter_ext_in'. intros u Hu'. rewrite en_root_of; [reflexivity|]. apply (I_log _ _ _ _ _ I). exact Hu'.
   Qed.
 
+  Lemma en_args_old v : (v < nvars st)%nat -> und_args (sc_of st' (home v)) = und_args (sc_of st (home v)).
+  Proof. intros H. rewrite en_sc_old; [reflexivity|]. apply (I_homes _ _ _ _ _ I). exact H. Qed.
+
   Lemma en_frame_old s : (s < nscopes st)%nat -> frame_of st' home s = frame_of st home s.
-  Proof. intros H. unfold frame_of. rewrite en_sc_old by exact H. reflexivity. Qed.
+  Proof.
+    intros H. unfold frame_of. rewrite en_sc_old by exact H. f_equal. apply map_ext_in. intros v Hv.
+    apply uent_of_ext; try reflexivity. apply en_args_old. apply (I_valid _ _ _ _ _ I s v H). right. exact Hv.
+  Qed.
 
   Lemma en_lab w : (w < nvars st)%nat -> lab_of st' home w = lab_of st home w.
-  Proof. intros H. unfold lab_of. rewrite en_root_of by exact H. reflexivity. Qed.
+  Proof.
+    intros H. unfold lab_of. rewrite en_root_of by exact H. apply lab_root_ext; try reflexivity. apply en_args_old.
+    destruct (root_of_spec st home w (I_links _ _ _ _ _ I) (I_homes _ _ _ _ _ I) H) as (n & _ & _ & Hr & _). exact Hr.
+  Qed.
 
   Lemma enter_all :
     enter_scope (mkP st (Some c) log) f = Ok (mkP st' (Some id) log) /\
@@ -130,94 +143,173 @@ Section Enter.
   Qed.
 End Enter.
 
-(* ---- MarkFuncArgs -------------------------------------------------------------------------------- *)
-Section MarkArgs.
+(* ---- MarkFuncArgs, MarkForStmt, the mark after a catch parameter ------------------------------------ *)
+Section Mark.
   Variables (st : state) (log stk : list nat) (c : nat) (rest : list nat) (home : nat -> nat).
+  Variables (nf nfa : Z).   (* NumForDecls and NumFuncArgs after the mark *)
   Hypothesis Hstk : stk = c :: rest.
   Hypothesis I : InvS st log stk home no_extra.
   Hypothesis U : InvU st log.
   Hypothesis Hlen : len log < 65536.
 
   Let sc := sc_of st c.
-  Let sc' := mkScope (sparent sc) (sfunc sc) (sdeclared sc) (sundeclared sc)
-                     (nfordecls sc) (u16 (len (sdeclared sc))) (u16 (len (sundeclared sc))).
+  Hypothesis Hnf : 0 <= nf <= len (sdeclared sc).
+  (* the scope has not been marked before: none of its pending uses is frozen *)
+  Hypothesis Hfresh : forall v, In v (sundeclared sc) -> vd st v = 0 -> argp st home v = false.
+
+  Let sc' := mkScope (sparent sc) (sfunc sc) (sdeclared sc) (sundeclared sc) nf nfa (u16 (len (sundeclared sc))).
   Let st' := sset st c sc'.
 
-  Lemma ma_c : (c < nscopes st)%nat.
+  Lemma mk_c : (c < nscopes st)%nat.
   Proof. apply (stack_ok_in st stk); [apply I|]. rewrite Hstk. left. reflexivity. Qed.
 
-  Lemma ma_sc s : sc_of st' s = if Nat.eqb s c then sc' else sc_of st s.
+  Lemma mk_cs : In c stk.
+  Proof. rewrite Hstk. left. reflexivity. Qed.
+
+  Lemma mk_sc s : sc_of st' s = if Nat.eqb s c then sc' else sc_of st s.
   Proof.
     unfold st'. destruct (Nat.eqb_spec s c) as [->|Hne].
-    - apply sc_of_sset_same. apply ma_c.
+    - apply sc_of_sset_same. apply mk_c.
     - apply sc_of_sset_other. congruence.
   Qed.
 
-  Lemma ma_fields s :
+  Lemma mk_fields s :
     sparent (sc_of st' s) = sparent (sc_of st s) /\ sfunc (sc_of st' s) = sfunc (sc_of st s) /\
-    sdeclared (sc_of st' s) = sdeclared (sc_of st s) /\ sundeclared (sc_of st' s) = sundeclared (sc_of st s) /\
-    nfordecls (sc_of st' s) = nfordecls (sc_of st s).
-  Proof. rewrite ma_sc. destruct (Nat.eqb_spec s c) as [->|]; repeat split; reflexivity. Qed.
+    sdeclared (sc_of st' s) = sdeclared (sc_of st s) /\ sundeclared (sc_of st' s) = sundeclared (sc_of st s).
+  Proof. rewrite mk_sc. destruct (Nat.eqb_spec s c) as [->|]; repeat split; reflexivity. Qed.
 
-  Lemma ma_und_small : len (sundeclared sc) < 65536.
+  Lemma mk_und_small : len (sundeclared sc) < 65536.
   Proof.
     assert (H : (length (sundeclared sc) <= nvars st)%nat).
     { apply nodup_bounded_length.
-      - apply (I_und_nodup _ _ _ _ _ I c). rewrite Hstk. left. reflexivity.
-      - intros v Hv. apply (I_valid _ _ _ _ _ I c v ma_c). right. exact Hv. }
+      - apply (I_und_nodup _ _ _ _ _ I c). apply mk_cs.
+      - intros v Hv. apply (I_valid _ _ _ _ _ I c v mk_c). right. exact Hv. }
     pose proof (I_nvars _ _ _ _ _ I). unfold len in *. lia.
   Qed.
 
-  Lemma InvS_mark_args : InvS st' log stk home no_extra.
+  Lemma mk_narg : Z.to_nat (narguses sc') = length (sundeclared sc).
+  Proof.
+    cbn [narguses sc']. pose proof mk_und_small. pose proof (len_nonneg (sundeclared sc)).
+    rewrite u16_small by lia. unfold len. lia.
+  Qed.
+
+  Lemma mk_args_c : und_args (sc_of st' c) = sundeclared sc.
+  Proof. rewrite mk_sc, Nat.eqb_refl. unfold und_args. rewrite mk_narg. cbn [sundeclared sc']. apply firstn_all. Qed.
+
+  Lemma mk_argp_other v : home v <> c -> argp st' home v = argp st home v.
+  Proof.
+    intros H. unfold argp. rewrite mk_sc. destruct (Nat.eqb_spec (home v) c); [contradiction|reflexivity].
+  Qed.
+
+  Lemma mk_argp_c v : home v = c -> In v (sundeclared sc) -> argp st' home v = true.
+  Proof. intros H Hv. apply (in_und_args_argp st' home c v H). rewrite mk_args_c. exact Hv. Qed.
+
+  Lemma InvS_mark : InvS st' log stk home no_extra.
   Proof.
     pose proof I as I'. dI I'.
     assert (Ens : nscopes st' = nscopes st) by apply nscopes_sset.
     constructor.
-    - eapply stack_ok_ext; [exact Istack|rewrite Ens; lia|]. intros s _. apply ma_fields.
-    - intros s g. rewrite Ens. destruct (ma_fields s) as (_ & -> & _). apply Ifunc.
-    - intros s v. rewrite Ens. destruct (ma_fields s) as (_ & _ & -> & -> & _). apply Ivalid.
+    - eapply stack_ok_ext; [exact Istack|rewrite Ens; lia|]. intros s _. apply mk_fields.
+    - intros s g. rewrite Ens. destruct (mk_fields s) as (_ & -> & _). apply Ifunc.
+    - intros s v. rewrite Ens. destruct (mk_fields s) as (_ & _ & -> & ->). apply Ivalid.
     - exact Ilinks.
     - intros v Hv. rewrite Ens. apply Ihomes. exact Hv.
     - exact Ilog.
     - exact Invars.
-    - intros s v. rewrite Ens. destruct (ma_fields s) as (_ & _ & -> & _). apply Idecl.
-    - intros s. rewrite Ens. destruct (ma_fields s) as (_ & _ & -> & _). apply Idnodup.
-    - intros r. destruct (ma_fields (home r)) as (_ & _ & -> & _). apply Idcomp.
-    - intros s v. destruct (ma_fields s) as (_ & _ & _ & -> & _). apply Iund.
-    - intros s. destruct (ma_fields s) as (_ & _ & _ & -> & _). apply Iunodup.
-    - intros s v1 v2. destruct (ma_fields s) as (_ & _ & _ & -> & _). apply Ipuniq.
-    - intros r. destruct (ma_fields (home r)) as (_ & _ & _ & -> & _). apply Ipcomp.
-    - intros s Hs. destruct (ma_fields s) as (_ & _ & Ed & Eu & Ef). rewrite Ed, Eu, Ef. split; [apply Imarks; exact Hs|].
-      rewrite ma_sc. destruct (Nat.eqb_spec s c) as [->|]; [|apply Imarks; exact Hs].
-      cbn [narguses sc']. pose proof ma_und_small. fold sc. pose proof (len_nonneg (sundeclared sc)).
+    - intros s v. rewrite Ens. destruct (mk_fields s) as (_ & _ & -> & _). apply Idecl.
+    - intros s. rewrite Ens. destruct (mk_fields s) as (_ & _ & -> & _). apply Idnodup.
+    - intros r. destruct (mk_fields (home r)) as (_ & _ & -> & _). apply Idcomp.
+    - intros s v. destruct (mk_fields s) as (_ & _ & _ & ->). apply Iund.
+    - intros s. destruct (mk_fields s) as (_ & _ & _ & ->). apply Iunodup.
+    - intros s v1 v2 Hs. destruct (mk_fields s) as (_ & _ & _ & ->). intros H1 H2 D1 D2 En Ea.
+      change (vd st v1 = 0) in D1. change (vd st v2 = 0) in D2.
+      destruct (Iund s v1 Hs H1) as (_ & Hh1 & _). destruct (Iund s v2 Hs H2) as (_ & Hh2 & _).
+      specialize (Hh1 D1). specialize (Hh2 D2).
+      apply (Ipuniq s v1 v2 Hs H1 H2 D1 D2 En).
+      destruct (Nat.eq_dec s c) as [->|Hne].
+      + rewrite (Hfresh v1 H1 D1), (Hfresh v2 H2 D2). reflexivity.
+      + rewrite <- (mk_argp_other v1), <- (mk_argp_other v2) by congruence. exact Ea.
+    - intros r. destruct (mk_fields (home r)) as (_ & _ & _ & ->). apply Ipcomp.
+    - intros s Hs. destruct (mk_fields s) as (_ & _ & Ed & Eu). rewrite Ed, Eu.
+      rewrite mk_sc. destruct (Nat.eqb_spec s c) as [->|]; [|apply Imarks; exact Hs].
+      cbn [narguses nfordecls sc']. pose proof mk_und_small. fold sc. pose proof (len_nonneg (sundeclared sc)).
       rewrite u16_small by lia. lia.
   Qed.
 
-  Lemma mark_args_all :
-    mark_args st c = Ok st' /\ InvS st' log stk home no_extra /\ InvU st' log /\
-    a_mark_args (abs st log stk home) = ARun (abs st' log stk home).
+  Lemma mk_frame_c :
+    frame_of st' home c
+    = mkF c (fisfunc (frame_of st home c)) (fdecl (frame_of st home c)) (to_args (fund (frame_of st home c)))
+          (length (fund (frame_of st home c))) (Z.to_nat nf).
   Proof.
-    split; [unfold mark_args; rewrite (sget_valid st c ma_c); reflexivity|].
-    split; [exact InvS_mark_args|]. split; [apply InvU_sset; exact U|].
-    assert (E1 : frame_of st' home c
-                 = mkF (fid (frame_of st home c)) (fisfunc (frame_of st home c)) (fdecl (frame_of st home c))
-                       (fund (frame_of st home c)) (length (fund (frame_of st home c))) (fnfor (frame_of st home c))).
-    { unfold frame_of. rewrite ma_sc, Nat.eqb_refl. cbn [fid fisfunc fdecl fund fnfor sparent sfunc sdeclared sundeclared narguses nfordecls sc'].
-      fold sc. f_equal. rewrite map_length. pose proof ma_und_small. pose proof (len_nonneg (sundeclared sc)).
-      rewrite u16_small by lia. unfold len. lia. }
-    assert (E2 : map (frame_of st' home) rest = map (frame_of st home) rest).
-    { apply map_ext_in. intros s Hs. unfold frame_of. rewrite ma_sc.
-      destruct (Nat.eqb_spec s c) as [->|]; [|reflexivity].
-      pose proof (stack_ok_nodup _ _ (I_stack _ _ _ _ _ I)) as Hnd. rewrite Hstk in Hnd. inversion Hnd; contradiction. }
-    assert (E3 : map (lab_of st' home) log = map (lab_of st home) log).
-    { apply map_ext. intros w. apply lab_of_sset. }
-    unfold a_mark_args, abs. cbn [astack]. rewrite Hstk. cbn [map anext alog].
-    rewrite E1, E2, E3. unfold st'. rewrite nscopes_sset. reflexivity.
+    unfold frame_of. rewrite mk_sc, Nat.eqb_refl. cbn [fid fisfunc fdecl fund sparent sfunc sdeclared sundeclared nfordecls sc'].
+    fold sc. rewrite mk_narg, map_length. f_equal. unfold to_args. rewrite map_map. apply map_ext_in. intros v Hv.
+    unfold uent_of. change (vget st' v) with (vget st v).
+    destruct (Z.eqb_spec (vdecl (vget st v)) 0) as [E|E]; [|reflexivity].
+    destruct (I_und _ _ _ _ _ I c v mk_cs Hv) as (_ & Hh & _). specialize (Hh E).
+    rewrite (mk_argp_c v Hh Hv), (Hfresh v Hv E). reflexivity.
   Qed.
-End MarkArgs.
 
-(* ---- MarkForStmt -------------------------------------------------------------------------------- *)
-Section MarkFor.
+  Lemma mk_frame_rest : map (frame_of st' home) rest = map (frame_of st home) rest.
+  Proof.
+    apply map_ext_in. intros s Hs.
+    assert (Hsc : s <> c).
+    { pose proof (stack_ok_nodup _ _ (I_stack _ _ _ _ _ I)) as Hnd. rewrite Hstk in Hnd. inversion Hnd; subst. congruence. }
+    assert (Hss : In s stk) by (rewrite Hstk; right; exact Hs).
+    unfold frame_of. rewrite mk_sc. destruct (Nat.eqb_spec s c) as [|_]; [contradiction|]. f_equal.
+    apply map_ext_in. intros v Hv. unfold uent_of. change (vget st' v) with (vget st v).
+    destruct (Z.eqb_spec (vdecl (vget st v)) 0) as [E|E]; [|reflexivity].
+    destruct (I_und _ _ _ _ _ I s v Hss Hv) as (_ & Hh & _). specialize (Hh E).
+    rewrite mk_argp_other by congruence. reflexivity.
+  Qed.
+
+  Lemma mk_labels : map (lab_of st' home) log = args_log c (map (lab_of st home) log).
+  Proof.
+    unfold args_log. rewrite map_map. apply map_ext_in. intros w Hw.
+    assert (Hwv : (w < nvars st)%nat) by (apply (I_log _ _ _ _ _ I); exact Hw).
+    destruct (root_of_spec st home w (I_links _ _ _ _ _ I) (I_homes _ _ _ _ _ I) Hwv) as (n & Hre & _ & Hr & _).
+    assert (Hroot : is_root st (root_of st w)) by (eapply reach_root; exact Hre).
+    unfold lab_of. unfold st'. rewrite root_of_sset. fold st'. set (r := root_of st w) in *.
+    unfold lab_root. change (vget st' r) with (vget st r).
+    destruct (Z.eqb_spec (vdecl (vget st r)) 0) as [E|E]; [|reflexivity].
+    destruct (I_pend_complete _ _ _ _ _ I r Hr Hroot E) as [[Hs Hin]|[]].
+    destruct (Nat.eq_dec (home r) c) as [Ec|Ec].
+    - rewrite Ec in Hin. rewrite (mk_argp_c r Ec Hin), (Hfresh r Hin E). rewrite Ec, Nat.eqb_refl. reflexivity.
+    - rewrite (mk_argp_other r Ec). destruct (argp st home r); [reflexivity|].
+      destruct (Nat.eqb_spec (home r) c); [contradiction|reflexivity].
+  Qed.
+
+  Lemma mark_abs :
+    InvS st' log stk home no_extra /\ InvU st' log /\
+    abs st' log stk home
+    = mkA (mkF c (fisfunc (frame_of st home c)) (fdecl (frame_of st home c)) (to_args (fund (frame_of st home c)))
+               (length (fund (frame_of st home c))) (Z.to_nat nf) :: map (frame_of st home) rest)
+          (nscopes st) (args_log c (map (lab_of st home) log)).
+  Proof.
+    split; [exact InvS_mark|]. split; [apply InvU_sset; exact U|].
+    unfold abs. rewrite Hstk. cbn [map]. rewrite mk_frame_c, mk_frame_rest, mk_labels. unfold st'. rewrite nscopes_sset. reflexivity.
+  Qed.
+End Mark.
+
+(* the abstract mark is defined exactly when no pending use of the scope is frozen yet *)
+Lemma mark_fresh st log stk c rest home :
+  stk = c :: rest -> InvS st log stk home no_extra ->
+  existsb is_uarg (fund (frame_of st home c)) = false ->
+  forall v, In v (sundeclared (sc_of st c)) -> vd st v = 0 -> argp st home v = false.
+Proof.
+  intros Hstk I Hex v Hv Hd. destruct (argp st home v) eqn:Ea; [|reflexivity]. exfalso.
+  assert (existsb is_uarg (fund (frame_of st home c)) = true); [|congruence].
+  apply existsb_exists. exists (uent_of st home v). split; [unfold frame_of; cbn [fund]; apply in_map; exact Hv|].
+  unfold uent_of. unfold vd in Hd. rewrite Hd, Z.eqb_refl, Ea. reflexivity.
+Qed.
+
+Lemma u16_len_small st log stk home (l : list nat) :
+  InvS st log stk home no_extra -> len log < 65536 -> NoDup l -> (forall v, In v l -> (v < nvars st)%nat) -> u16 (len l) = len l.
+Proof.
+  intros I Hlen Hnd Hv. pose proof (nodup_bounded_length l (nvars st) Hnd Hv). pose proof (I_nvars _ _ _ _ _ I).
+  pose proof (len_nonneg l). apply u16_small. unfold len in *. lia.
+Qed.
+
+Section MarkSteps.
   Variables (st : state) (log stk : list nat) (c : nat) (rest : list nat) (home : nat -> nat).
   Hypothesis Hstk : stk = c :: rest.
   Hypothesis I : InvS st log stk home no_extra.
@@ -225,89 +317,68 @@ Section MarkFor.
   Hypothesis Hlen : len log < 65536.
 
   Let sc := sc_of st c.
-  Let sc' := mkScope (sparent sc) (sfunc sc) (sdeclared sc) (sundeclared sc)
-                     (u16 (len (sdeclared sc))) (nfuncargs sc) (u16 (len (sundeclared sc))).
-  Let st' := sset st c sc'.
+  Let Hc : (c < nscopes st)%nat := mk_c st log stk c rest home Hstk I.
+  Let Hcs : In c stk := mk_cs stk c rest Hstk.
 
-  Lemma mf_c : (c < nscopes st)%nat.
-  Proof. apply (stack_ok_in st stk); [apply I|]. rewrite Hstk. left. reflexivity. Qed.
-
-  Lemma mf_sc s : sc_of st' s = if Nat.eqb s c then sc' else sc_of st s.
+  Lemma ms_decl_small : u16 (len (sdeclared sc)) = len (sdeclared sc).
   Proof.
-    unfold st'. destruct (Nat.eqb_spec s c) as [->|Hne].
-    - apply sc_of_sset_same. apply mf_c.
-    - apply sc_of_sset_other. congruence.
+    apply (u16_len_small st log stk home _ I Hlen).
+    - apply (NoDup_map_inv (vn st)). apply (I_decl_nodup _ _ _ _ _ I c Hc).
+    - intros v Hv. apply (I_valid _ _ _ _ _ I c v Hc). left. exact Hv.
   Qed.
 
-  Lemma mf_fields s :
-    sparent (sc_of st' s) = sparent (sc_of st s) /\ sfunc (sc_of st' s) = sfunc (sc_of st s) /\
-    sdeclared (sc_of st' s) = sdeclared (sc_of st s) /\ sundeclared (sc_of st' s) = sundeclared (sc_of st s).
-  Proof. rewrite mf_sc. destruct (Nat.eqb_spec s c) as [->|]; repeat split; reflexivity. Qed.
-
-  Lemma mf_decl_small : len (sdeclared sc) < 65536.
+  Lemma sim_mark_args :
+    match a_mark_args (abs st log stk home) with
+    | ARun a' => exists st', mark_args st c = Ok st' /\ InvS st' log stk home no_extra /\ InvU st' log /\ a' = abs st' log stk home
+    | ARej => False
+    | AStuck => True
+    end.
   Proof.
-    assert (H : (length (sdeclared sc) <= nvars st)%nat).
-    { apply nodup_bounded_length.
-      - apply (NoDup_map_inv (vn st)). apply (I_decl_nodup _ _ _ _ _ I c mf_c).
-      - intros v Hv. apply (I_valid _ _ _ _ _ I c v mf_c). left. exact Hv. }
-    pose proof (I_nvars _ _ _ _ _ I). unfold len in *. lia.
+    assert (Eabs : abs st log stk home = mkA (frame_of st home c :: map (frame_of st home) rest) (nscopes st) (map (lab_of st home) log))
+      by (unfold abs; rewrite Hstk; reflexivity).
+    rewrite Eabs. unfold a_mark_args, a_mark. cbn [astack anext alog].
+    destruct (existsb is_uarg (fund (frame_of st home c))) eqn:Ex; [exact Logic.I|].
+    pose proof (mark_fresh st log stk c rest home Hstk I Ex) as Hfresh.
+    destruct (I_marks _ _ _ _ _ I c Hcs) as [Hnf _].
+    destruct (mark_abs st log stk c rest home (nfordecls sc) (u16 (len (sdeclared sc))) Hstk I U Hlen Hnf Hfresh) as (H1 & H2 & H3).
+    eexists. split; [unfold mark_args; rewrite (sget_valid st c Hc); reflexivity|]. split; [exact H1|]. split; [exact H2|].
+    symmetry. exact H3.
   Qed.
 
-  Lemma mf_und_small : len (sundeclared sc) < 65536.
+  Lemma sim_mark_catch :
+    match a_mark_catch (abs st log stk home) with
+    | ARun a' => exists st', mark_catch st c = Ok st' /\ InvS st' log stk home no_extra /\ InvU st' log /\ a' = abs st' log stk home
+    | ARej => False
+    | AStuck => True
+    end.
   Proof.
-    assert (H : (length (sundeclared sc) <= nvars st)%nat).
-    { apply nodup_bounded_length.
-      - apply (I_und_nodup _ _ _ _ _ I c). rewrite Hstk. left. reflexivity.
-      - intros v Hv. apply (I_valid _ _ _ _ _ I c v mf_c). right. exact Hv. }
-    pose proof (I_nvars _ _ _ _ _ I). unfold len in *. lia.
+    assert (Eabs : abs st log stk home = mkA (frame_of st home c :: map (frame_of st home) rest) (nscopes st) (map (lab_of st home) log))
+      by (unfold abs; rewrite Hstk; reflexivity).
+    rewrite Eabs. unfold a_mark_catch, a_mark. cbn [astack anext alog].
+    destruct (existsb is_uarg (fund (frame_of st home c))) eqn:Ex; [exact Logic.I|].
+    pose proof (mark_fresh st log stk c rest home Hstk I Ex) as Hfresh.
+    destruct (I_marks _ _ _ _ _ I c Hcs) as [Hnf _].
+    destruct (mark_abs st log stk c rest home (nfordecls sc) (nfuncargs sc) Hstk I U Hlen Hnf Hfresh) as (H1 & H2 & H3).
+    eexists. split; [unfold mark_catch; rewrite (sget_valid st c Hc); reflexivity|]. split; [exact H1|]. split; [exact H2|].
+    symmetry. exact H3.
   Qed.
 
-  Lemma InvS_mark_for : InvS st' log stk home no_extra.
+  Lemma sim_mark_for :
+    match a_mark_for (abs st log stk home) with
+    | ARun a' => exists st', mark_for st c = Ok st' /\ InvS st' log stk home no_extra /\ InvU st' log /\ a' = abs st' log stk home
+    | ARej => False
+    | AStuck => True
+    end.
   Proof.
-    pose proof I as I'. dI I'.
-    assert (Ens : nscopes st' = nscopes st) by apply nscopes_sset.
-    constructor.
-    - eapply stack_ok_ext; [exact Istack|rewrite Ens; lia|]. intros s _. apply mf_fields.
-    - intros s g. rewrite Ens. destruct (mf_fields s) as (_ & -> & _). apply Ifunc.
-    - intros s v. rewrite Ens. destruct (mf_fields s) as (_ & _ & -> & ->). apply Ivalid.
-    - exact Ilinks.
-    - intros v Hv. rewrite Ens. apply Ihomes. exact Hv.
-    - exact Ilog.
-    - exact Invars.
-    - intros s v. rewrite Ens. destruct (mf_fields s) as (_ & _ & -> & _). apply Idecl.
-    - intros s. rewrite Ens. destruct (mf_fields s) as (_ & _ & -> & _). apply Idnodup.
-    - intros r. destruct (mf_fields (home r)) as (_ & _ & -> & _). apply Idcomp.
-    - intros s v. destruct (mf_fields s) as (_ & _ & _ & ->). apply Iund.
-    - intros s. destruct (mf_fields s) as (_ & _ & _ & ->). apply Iunodup.
-    - intros s v1 v2. destruct (mf_fields s) as (_ & _ & _ & ->). apply Ipuniq.
-    - intros r. destruct (mf_fields (home r)) as (_ & _ & _ & ->). apply Ipcomp.
-    - intros s Hs. destruct (mf_fields s) as (_ & _ & Ed & Eu). rewrite Ed, Eu.
-      rewrite mf_sc. destruct (Nat.eqb_spec s c) as [->|]; [|apply Imarks; exact Hs].
-      cbn [narguses nfordecls sc']. pose proof mf_und_small. pose proof mf_decl_small. fold sc.
-      pose proof (len_nonneg (sundeclared sc)). pose proof (len_nonneg (sdeclared sc)).
-      rewrite !u16_small by lia. lia.
+    assert (Eabs : abs st log stk home = mkA (frame_of st home c :: map (frame_of st home) rest) (nscopes st) (map (lab_of st home) log))
+      by (unfold abs; rewrite Hstk; reflexivity).
+    rewrite Eabs. unfold a_mark_for, a_mark. cbn [astack anext alog].
+    destruct (existsb is_uarg (fund (frame_of st home c))) eqn:Ex; [exact Logic.I|].
+    pose proof (mark_fresh st log stk c rest home Hstk I Ex) as Hfresh.
+    assert (Hnf : 0 <= u16 (len (sdeclared sc)) <= len (sdeclared sc)).
+    { rewrite ms_decl_small. pose proof (len_nonneg (sdeclared sc)). lia. }
+    destruct (mark_abs st log stk c rest home (u16 (len (sdeclared sc))) (nfuncargs sc) Hstk I U Hlen Hnf Hfresh) as (H1 & H2 & H3).
+    eexists. split; [unfold mark_for; rewrite (sget_valid st c Hc); reflexivity|]. split; [exact H1|]. split; [exact H2|].
+    symmetry. etransitivity; [exact H3|]. f_equal. f_equal. f_equal. rewrite ms_decl_small. unfold frame_of. cbn [fdecl]. rewrite map_length. unfold len, sc. rewrite Nat2Z.id. reflexivity.
   Qed.
-
-  Lemma mark_for_all :
-    mark_for st c = Ok st' /\ InvS st' log stk home no_extra /\ InvU st' log /\
-    a_mark_for (abs st log stk home) = ARun (abs st' log stk home).
-  Proof.
-    split; [unfold mark_for; rewrite (sget_valid st c mf_c); reflexivity|].
-    split; [exact InvS_mark_for|]. split; [apply InvU_sset; exact U|].
-    assert (E1 : frame_of st' home c
-                 = mkF (fid (frame_of st home c)) (fisfunc (frame_of st home c)) (fdecl (frame_of st home c))
-                       (fund (frame_of st home c)) (length (fund (frame_of st home c))) (length (fdecl (frame_of st home c)))).
-    { unfold frame_of. rewrite mf_sc, Nat.eqb_refl. cbn [fid fisfunc fdecl fund fnfor sparent sfunc sdeclared sundeclared narguses nfordecls sc'].
-      fold sc. rewrite !map_length. pose proof mf_und_small. pose proof (len_nonneg (sundeclared sc)).
-      pose proof mf_decl_small. pose proof (len_nonneg (sdeclared sc)).
-      rewrite !u16_small by lia. unfold len. rewrite !Nat2Z.id. reflexivity. }
-    assert (E2 : map (frame_of st' home) rest = map (frame_of st home) rest).
-    { apply map_ext_in. intros s Hs. unfold frame_of. rewrite mf_sc.
-      destruct (Nat.eqb_spec s c) as [->|]; [|reflexivity].
-      pose proof (stack_ok_nodup _ _ (I_stack _ _ _ _ _ I)) as Hnd. rewrite Hstk in Hnd. inversion Hnd; contradiction. }
-    assert (E3 : map (lab_of st' home) log = map (lab_of st home) log).
-    { apply map_ext. intros w. apply lab_of_sset. }
-    unfold a_mark_for, abs. cbn [astack]. rewrite Hstk. cbn [map anext alog].
-    rewrite E1, E2, E3. unfold st'. rewrite nscopes_sset. reflexivity.
-  Qed.
-End MarkFor.
+End MarkSteps.
